@@ -562,3 +562,47 @@ Theorem C11_count_no_swaps :
                  (forall c x, In c (components g) -> In x c -> In (s x) c) /\ m = aut_pairs g s).
 Proof. exact count_no_swaps. Qed.
 Print Assumptions C11_count_no_swaps.
+
+(** The numerals and the canonical order (round 5).  [repr_N n] is Python's repr of a non-negative int: decimal digits
+    ('0' = 48), most significant first, value n, non-empty, no leading zero, no '|'.  Hence the sort key determines the
+    orbit as a set, the keys of the reported orbits are pairwise distinct, and the premise of C11_orbit_order is
+    discharged: Automorphism.orbits as a list does not depend on the order in which Python enumerates the orbit set. *)
+Theorem C11_repr_numeral :
+  forall n : N,
+    fold_left (fun a d => (10 * a + (d - 48))%N) (repr_N n) 0%N = n /\
+    Forall (fun d => (48 <= d <= 57)%N) (repr_N n) /\ repr_N n <> [] /\
+    (n <> 0%N -> hd 0%N (repr_N n) <> 48%N) /\ ~ In 124%N (repr_N n).
+Proof. exact repr_N_spec. Qed.
+Print Assumptions C11_repr_numeral.
+
+Theorem C11_reported_order_canonical :
+  forall (fn : nlab -> N) (fe : elab -> N) (g : graph), wf g ->
+    (forall o o', okey o = okey o' -> forall x, In x o <-> In x o') /\
+    NoDup (map okey (a_orbits (analyze fn fe g))) /\
+    (forall O', Permutation (a_orbits (analyze fn fe g)) O' ->
+       sorted_orbits O' = sorted_orbits (a_orbits (analyze fn fe g))).
+Proof. exact (fun fn fe g H => conj okey_inj (reported_order_canonical fn fe g H)). Qed.
+Print Assumptions C11_reported_order_canonical.
+
+(** Clause 4, proved half, in terms of what the reactor really holds (round 5): [rc] is the attribute-dictionary graph of
+    rule.rc.raw, [skip] the ignored node attributes (the reactor: atom_map), [prune key (to_rule_graph skip rc) raw] the
+    pruning step as the correspondence evaluates it ([run_prune_attr]).  Every raw match is m' o sigma^-1 for a kept match
+    m' and a symmetry sigma of the RULE - a node permutation keeping every node attribute except the ignored ones and
+    every edge attribute -, and (duplicate-free raw list) a match is kept IFF no earlier raw match differs from it by such
+    a symmetry. *)
+Theorem C11_prune_attr :
+  forall (X : Type) (key : X -> mapping) (skip : list N) (rc : agraph) (raw : list X),
+    wf rc ->
+    (forall x p h, In x raw -> In (p, h) (key x) -> In p (node_ids rc)) ->
+    (forall x, In x raw ->
+       exists y, In y (prune key (to_rule_graph skip rc) raw) /\
+         exists s, rule_automorphism skip rc s /\
+           forall p h, In (p, h) (key x) <-> exists p', In (p', h) (key y) /\ p = s p') /\
+    (NoDup raw ->
+     forall x, In x (prune key (to_rule_graph skip rc) raw) <->
+       (In x raw /\
+        forall l1 l2, raw = l1 ++ x :: l2 -> forall z, In z l1 ->
+          ~ exists s, rule_automorphism skip rc s /\
+                      forall p h, In (p, h) (key x) <-> exists p', In (p', h) (key z) /\ p = s p')).
+Proof. exact prune_attr. Qed.
+Print Assumptions C11_prune_attr.
